@@ -138,6 +138,7 @@ class FakeQueue:
         self.env.trace("put", type(item).__name__, getattr(item, "worker_num", None), origin)
 
     def empty(self) -> bool:
+        self.env.op()
         k = self.empty_calls
         self.empty_calls += 1
         lag = self.env.tick.get("lag")
@@ -204,11 +205,21 @@ class Env:
         self.prepared = False
         self.returned: Any = "running"
         self.late_done = False
+        self.ops_since_sleep = 0
         self.pending_deaths: List[FakeProcess] = []
         monitor.env = self
 
     def trace(self, *ev: Any) -> None:
         self.events.append((self.tick_no,) + tuple(repr(e) if isinstance(e, FakeProcess) else e for e in ev))
+        self.op()
+
+    def op(self) -> None:
+        # a supervision loop that never reaches sleep() would spin for ever (and burn a core in real life)
+        self.ops_since_sleep += 1
+        if self.ops_since_sleep > 20000:
+            for prop in ("C17", "C18"):
+                self.monitor.flag(f"{prop}:supervision-loop-never-sleeps", f"more than 20000 queue/process operations in tick {self.tick_no} without reaching sleep()")
+            raise Hang()
 
     def slot_of(self, name: str) -> int:
         return int(name.rsplit("-", 1)[1])
@@ -232,6 +243,7 @@ class Env:
 
     def sleep(self, secs: float) -> None:
         """Tick boundary."""
+        self.ops_since_sleep = 0
         self.prepared = True
         self.monitor.on_tick_boundary()
         self.tick_no += 1
